@@ -223,6 +223,42 @@ def gen_case(rng, cid, ntypes=None, adversarial=False, ninj=1, nfiles=1, force_a
     return c
 
 
+def transitive_case(rng, cid, shadow_std=False, nfiles=1):
+    """A package whose injector must spell types of packages NO file of the user's package imports: they are reached only
+    through the signatures of constructors in a library package (lib.NewLogger() *log.Logger, lib.NewStoreConfig()
+    *storage/config.Config).  Two packages share the package name `config`, and a file of the user's package that sorts
+    AFTER the generated file imports the other one.  Optionally the user's package declares a package-level identifier
+    named like the std package `log`, which only the generated file has to import."""
+    c = Case(cid)
+    mod = 'scratch/' + cid
+    c.files['storage/config/c.go'] = 'package config\n\ntype Config struct{ DSN string }\n'
+    c.files['server/config/c.go'] = 'package config\n\ntype Options struct{ Addr string }\n'
+    c.files['lib/lib.go'] = ('package lib\n\nimport (\n\t"log"\n\t"os"\n\n\tsconfig "%s/storage/config"\n)\n\n'
+                             'type Service struct{ L *log.Logger }\n\ntype Store struct{ C *sconfig.Config }\n\n'
+                             'func NewStoreConfig() *sconfig.Config { return &sconfig.Config{} }\n\n'
+                             'func NewStore(c *sconfig.Config) *Store { return &Store{C: c} }\n\n'
+                             'func NewLogger() *log.Logger { return log.New(os.Stderr, "", 0) }\n\n'
+                             'func NewService(l *log.Logger) *Service { return &Service{L: l} }\n') % mod
+    shadow = 'var log = []string{"a package-level identifier named like a package nobody here imports"}\n\n' if shadow_std else ''
+    c.files['types.go'] = ('package main\n\n' + shadow + 'type Cache struct{ N int }\n\nfunc NewCache() *Cache { return &Cache{} }\n\nfunc main() {}\n')
+    c.files['zserver.go'] = ('package main\n\nimport (\n\t"%s/lib"\n\t"%s/server/config"\n)\n\n' % (mod, mod) +
+                             'type App struct{ X int }\n\nfunc NewOptions() *config.Options { return &config.Options{} }\n\n'
+                             'func NewApp(o *config.Options, s *lib.Store, sv *lib.Service, ca *Cache) *App { return &App{} }\n')
+    body = ('var _ = kessoku.Inject[*App](\n\t"Init%s",\n\tkessoku.Async(kessoku.Provide(lib.NewStoreConfig)),\n\tkessoku.Async(kessoku.Provide(lib.NewLogger)),\n'
+            '\tkessoku.Async(kessoku.Provide(lib.NewStore)),\n\tkessoku.Async(kessoku.Provide(lib.NewService)),\n'
+            '\tkessoku.Async(kessoku.Provide(NewOptions)),\n\tkessoku.Provide(NewCache),\n\tkessoku.Provide(NewApp),\n)\n') % cid.capitalize()
+    c.files['k0.go'] = 'package main\n\nimport (\n\t"github.com/mazrean/kessoku"\n\t"%s/lib"\n)\n\n%s' % (mod, body)
+    c.invoke = ['k0.go']
+    if nfiles > 1:
+        body2 = ('var _ = kessoku.Inject[*lib.Service](\n\t"Init%sB",\n\tkessoku.Async(kessoku.Provide(lib.NewLogger)),\n'
+                 '\tkessoku.Async(kessoku.Provide(lib.NewStoreConfig)),\n\tkessoku.Async(kessoku.Provide(lib.NewStore)),\n'
+                 '\tkessoku.Provide(func(l *lib.Store, sv0 *lib.Service) *Cache { return &Cache{} }),\n\tkessoku.Async(kessoku.Provide(lib.NewService)),\n)\n') % cid.capitalize()
+        c.files['k1.go'] = 'package main\n\nimport (\n\t"github.com/mazrean/kessoku"\n\t"%s/lib"\n)\n\n%s' % (mod, body2)
+        c.invoke = ['k0.go', 'k1.go']
+    c.meta.update({'kind': 'transitive-imports', 'shadow_std': shadow_std, 'ninj': 1, 'nfiles': nfiles, 'types': ['transitive']})
+    return c
+
+
 def corpus(tier, sd):
     rng = random.Random(sd * 2654435761 % (2 ** 31) + 4)
     quick = tier == 'quick'
@@ -243,6 +279,9 @@ def corpus(tier, sd):
                 n += 1
     for _ in range(10 if quick else 150):
         cases.append(gen_case(rng, 'm%03d' % n, adversarial=rng.random() < 0.5, ninj=rng.randint(1, 2), nfiles=rng.randint(1, 2)))
+        n += 1
+    for k_ in range(2 if quick else 6):
+        cases.append(transitive_case(rng, 'x%03d' % n, shadow_std=(k_ % 2 == 1), nfiles=1 + (k_ // 2) % 2))
         n += 1
     for key in ('extptr', 'extval', 'genericext', 'mapext'):
         for asy in ((True,) if quick else (True, False)):
@@ -272,6 +311,7 @@ def write_cases(root, cases):
         d = os.path.join(root, c.id)
         os.makedirs(d, exist_ok=True)
         for fn, src in c.files.items():
+            os.makedirs(os.path.dirname(os.path.join(d, fn)), exist_ok=True)
             open(os.path.join(d, fn), 'w').write(src)
 
 
@@ -472,6 +512,8 @@ def names_end_to_end(w, rep, tier, prop):
             for _ in range(3 if tier == 'quick' else 20):
                 cases.append(gen_case(rng, 'n%03d' % n, adversarial=True, ninj=ninj, nfiles=nfiles))
                 n += 1
+    for k in range(2 if tier == 'quick' else 6):
+        cases.append(transitive_case(rng, 'y%03d' % k, shadow_std=True, nfiles=1 + k % 2))
     root, gres, post = run_cases(w, cli, cases, 'c12')
     ok = [c for c in cases if gres[c.id][0] == 0]
     out = names_of_cases(w, rep, root, ok, prop)
